@@ -13,6 +13,8 @@ mod exact;
 mod minmax;
 mod moments;
 mod pairs;
+mod quantile;
+mod record;
 mod report;
 mod types;
 
@@ -118,12 +120,33 @@ fn main() {
                 })
                 .reduce(Report::default, Report::merge)
         }
+        ("replay", Some("quantile")) => {
+            let vals = read_emitted(&m["input"]);
+            let want = quantile::QWant {
+                prop: m["prop"].clone(),
+                embeddings: exact::embeddings(&list(&m, "embeddings", "E0").iter().map(|s| s.as_str()).collect::<Vec<_>>()),
+            };
+            vals.par_iter()
+                .fold(Report::default, |mut r, v| {
+                    quantile::process_line(v, &want, &mut r);
+                    r
+                })
+                .reduce(Report::default, Report::merge)
+        }
+        ("record", Some("quantile")) => {
+            let mut r = Report::default();
+            let seed: u64 = m.get("seed").and_then(|s| s.parse().ok()).unwrap_or(1);
+            let n: usize = m.get("n").and_then(|s| s.parse().ok()).unwrap_or(1000);
+            record::record_quantile(&m["trace"], seed, n, &mut r);
+            r
+        }
         _ => {
             eprintln!("usage: conform replay --family moments --input F --prop Cxx --out R");
             std::process::exit(2);
         }
     };
     let mut j = rep.to_json();
+    j["traces"] = serde_json::json!(rep.counters.get("traces").copied().unwrap_or(0));
     j["wall_s"] = serde_json::json!(t0.elapsed().as_secs_f64());
     j["args"] = serde_json::json!(m);
     let s = serde_json::to_string_pretty(&j).unwrap();
